@@ -15,7 +15,7 @@ import warnings as _pywarnings
 import z3
 
 from engine import sym
-from engine.common import DISCHARGED, REFUTED, UNKNOWN, Unit, ob
+from engine.common import DISCHARGED, REFUTED, UNKNOWN, Unit, conformance_unit, ob
 
 PID = "C16"
 FN = "utils/cholesky.py::_psd_safe_cholesky"
@@ -315,7 +315,7 @@ def replay(obname):
 
 
 def shadow_units(tier):
-    us = []
+    us = [conformance_unit(PID)]
     ranks = (0, 1) if tier == "quick" else (0, 1, 2)
     for br in ranks:
         for upper in (False, True):
